@@ -5,7 +5,8 @@
     DistributionType members and values, the order of the tuple built in Candidate.sortkey,
     the order of the tuple returned by Candidate.tag_score, the impl_score_defaults table and
     the shift constants of _py_version_score, the order (and guards) of the tests of
-    check_usability.
+    check_usability, whether _check_abi_compatibility and tag_score's abi_score treat the ABI
+    field as one string or as a dot-separated tag set (commit c54d5f0).
 
 and writes coq/gen/ConstsC20.v.  The model (model/TagsC20.v) interprets these definitions; the
 obligations the theorems need about them are in proofs/TagsC20P.v (section "generated constants").
@@ -201,6 +202,46 @@ def read_py_score(mod: ast.Module) -> Dict[str, Any]:
     return {"defaults": defaults, "shifts": shifts}
 
 
+ABI_TEST_SHAPES = {
+    # single string comparison (before c54d5f0)
+    "return abi in ABI_TAGS": False,
+    # PEP 425 compressed tag set (c54d5f0)
+    "return any((tag == 'none' or tag in ABI_TAGS for tag in abi.split('.')))": True,
+}
+ABI_SCORE_SHAPES = {
+    ("try:\n    abi_score = ABI_TAGS.index(self.abi) if self.abi is not None else 0\n"
+     "except ValueError:\n    abi_score = 0",): False,
+    ("abi_score = 0",
+     "if self.abi is not None:\n    abi_score = max((ABI_TAGS.index(tag) for tag in self.abi.split('.') "
+     "if tag in ABI_TAGS), default=0)"): True,
+}
+
+
+def read_abi_test(mod: ast.Module) -> bool:
+    """Is the ABI field compared as one string, or as a dot-separated tag set?"""
+    f = T.func(mod, "_check_abi_compatibility")
+    body = [st for st in f.body if not (isinstance(st, ast.Expr) and isinstance(st.value, ast.Constant))]
+    if [a.arg for a in f.args.args] != ["abi"] or len(body) != 1:
+        raise TranslateError("_check_abi_compatibility: unexpected signature/body")
+    src = ast.unparse(body[0])
+    if src not in ABI_TEST_SHAPES:
+        raise TranslateError("_check_abi_compatibility: unrecognised test `" + src + "`")
+    return ABI_TEST_SHAPES[src]
+
+
+def read_abi_score(mod: ast.Module) -> bool:
+    """The statements of Candidate.tag_score that assign abi_score: single string or tag set?"""
+    f = _method(T.klass(mod, "Candidate"), "tag_score")
+    stmts = []
+    for st in f.body:
+        if any(isinstance(n, ast.Name) and n.id == "abi_score" and isinstance(n.ctx, ast.Store) for n in ast.walk(st)):
+            stmts.append(ast.unparse(st))
+    key = tuple(stmts)
+    if key not in ABI_SCORE_SHAPES:
+        raise TranslateError("Candidate.tag_score: unrecognised abi_score computation " + repr(key)[:300])
+    return ABI_SCORE_SHAPES[key]
+
+
 def gen_consts() -> str:
     mod = T.parse(REL)
     interp = _dict_of_strs(mod, "INTERPRETER_TAGS")
@@ -214,6 +255,8 @@ def gen_consts() -> str:
     usab = read_usability(mod)
     dist = read_dist_types(mod)
     pys = read_py_score(mod)
+    abi_test = read_abi_test(mod)
+    abi_score = read_abi_score(mod)
 
     def pairs(l):
         return T.coq_list([f"({T.coq_str(a)}, {T.coq_str(b)})" for a, b in l])
@@ -229,6 +272,8 @@ def gen_consts() -> str:
     body += "Definition usability_order : list reason := " + T.coq_list(usab) + ".\n"
     body += "Definition dist_type_value (t : dist_type) : Z :=\n  match t with " + " | ".join(
         f"{DIST[n]} => {v}" if v >= 0 else f"{DIST[n]} => ({v})" for n, v in dist) + " end.\n"
+    body += "Definition abi_test_compressed : bool := " + ("true" if abi_test else "false") + ".\n"
+    body += "Definition abi_score_compressed : bool := " + ("true" if abi_score else "false") + ".\n"
     body += "Definition impl_score_defaults : list (string * Z) := " + T.coq_list(
         [f"({T.coq_str(k)}, {v})" if v >= 0 else f"({T.coq_str(k)}, ({v}))" for k, v in pys["defaults"]]) + ".\n"
     body += "Definition shift_major : Z := %d.\nDefinition shift_minor : Z := %d.\nDefinition shift_ord0 : Z := %d.\n" % (
